@@ -109,6 +109,27 @@ CHECKS = {
             "with the direct calculation on the summed composition.",
             "neutron_sld is the reference (decided by C03).",
             "DESIGN.md section 4 C17"),
+    "C02": ("Hypothesis-generated operation histories (constructors, f+g, n*f, f+=g over named variables) interpreted "
+            "against a Fraction model with snapshot-based aliasing detection",
+            "Each history of up to 30 operations is applied to real Formula objects and to a {(Z,A,charge): Fraction} model; "
+            "after every step atoms, mass (ion = atom minus charge electron masses, from element masses), charge, mass "
+            "fractions and molecular mass are compared and every other variable must be unchanged.",
+            "fractions.Fraction and the served atomic masses are trusted; structure nesting of f+=g is not judged, only its atoms.",
+            "DESIGN.md section 4 C02"),
+    "C13": ("Hypothesis search over formulas produced by parsing rendered trees, by arithmetic histories and by the mixture "
+            "constructors; print -> parse round trip against the printed-precision structure",
+            "str(f) must parse, and the parsed structure must equal f's structure with every count rounded to six significant "
+            "digits and count-1 groups dissolved; atoms by identity; repr and names checked; counts over [1e-20, 1e20].",
+            "Count-1 groups are transparent (the grammar cannot denote them); a source string rejected by the parser is "
+            "inconclusive here (C01/C11 judge that).",
+            "DESIGN.md section 4 C13"),
+    "C19": ("Hypothesis search over atom multisets with several constructions (dict, rendered tree, arithmetic) of each; "
+            "composition, ordering, canonicity, idempotence and parse-back relations",
+            "For every generated multiset all variants must have equal Hill forms and strings, the Hill form must keep the "
+            "atom counts, be ordered C, H, then alphabetical (isotopes by mass number), be idempotent, and a formula "
+            "rendered in Hill order and parsed must equal its own Hill form.",
+            "D and T sort under their own symbols; ties between charge states follow the library's own (now canonical) order.",
+            "DESIGN.md section 4 C19"),
 }
 
 PENDING = {}
